@@ -239,7 +239,7 @@ func c01compile(o *c01op) *c01prog {
 func c01build(o *c01op) *c01prog {
 	c01seq++
 	n := c01seq
-	ir := c01interp(o.stor == "gb" || o.stor == "gbf")
+	ir := c01interp(strings.HasPrefix(o.stor, "gb"))
 	T, U, R := o.xk.name, o.yk.name, o.resKind().name
 	X, Y := fmt.Sprintf("X%d", n), fmt.Sprintf("Y%d", n)
 	F := fmt.Sprintf("F%d", n)
@@ -295,7 +295,7 @@ func c01build(o *c01op) *c01prog {
 			return &c01prog{err: "bad-stor"}
 		}
 		src = fmt.Sprintf("func %s(x %s, y %s) %s { return func(x %s) %s { return %s }(x) }", F, T, U, R, T, R, o.exprSrc("x", "y"))
-	case "g", "gf", "gb", "gbf":
+	case "g", "gf", "gb", "gbf", "gc2", "gbc2":
 		global = true
 		var decl, set []string
 		gx, gy := xs, ys
@@ -314,7 +314,15 @@ func c01build(o *c01op) *c01prog {
 				return &c01prog{err: e}
 			}
 		}
-		if o.stor == "gf" || o.stor == "gbf" {
+		if o.stor == "gc2" || o.stor == "gbc2" {
+			// globals read from a closure nested two deep inside the function (upn = depth-1 = 3: FileEnv arm)
+			global = false
+			pre := strings.Join(set, "; ")
+			if pre != "" {
+				pre += "; "
+			}
+			src = fmt.Sprintf("func %s(%s) %s { %sreturn func() %s { return func() %s { return %s }() }() }", F, plist, R, pre, R, R, o.exprSrc(gx, gy))
+		} else if o.stor == "gf" || o.stor == "gbf" {
 			global = false
 			src = fmt.Sprintf("func %s(%s) %s { %s; return %s }", F, plist, R, strings.Join(set, "; "), o.exprSrc(gx, gy))
 		} else {
@@ -872,7 +880,7 @@ func shiftCounts(k *bkind, xw int) []bval {
 
 // ---- generator ----
 
-var c01stors = []string{"g", "gf", "l", "c1", "c2", "c3", "c4", "gb", "gbf"}
+var c01stors = []string{"g", "gf", "l", "c1", "c2", "c3", "c4", "gb", "gbf", "gc2", "gbc2"}
 
 type c01gen struct {
 	r     *rand.Rand
